@@ -413,7 +413,7 @@ def parse_rel_expr(lexer):
         and lexer.peek().type in ["operator", "keyword"]
     ):
         relop = lexer.next().value
-        if relop == "is" and lexer.peek().value == "not":
+        if relop == "is" and lexer.peekn(1, "not", "keyword"):
             relop = "is not"
             lexer.eat(1)
         pos = lexer.getPos()
